@@ -23,6 +23,7 @@
 #
 
 
+from itertools import count
 from queue import PriorityQueue
 from threading import Lock
 
@@ -47,6 +48,8 @@ class EventQueue():
 
     def __init__(self):
         self._queue = PriorityQueue()
+        # order signals with the same priority by their arrival (FIFO)
+        self._counter = count()
         self._contained_screens = set()
         self._lock = Lock()
 
@@ -63,7 +66,10 @@ class EventQueue():
         :param signal: Signal which should be enqueued to this queue.
         :type signal: Signal class based on `simpleline.event_loop.signals.AbstractSignal`.
         """
-        self._queue.put(signal)
+        self._put(signal)
+
+    def _put(self, signal):
+        self._queue.put((signal.priority, next(self._counter), signal))
 
     def enqueue_if_source_belongs(self, signal, source):
         """Enqueue signal to this queue if the signal source belongs to this queue.
@@ -79,7 +85,7 @@ class EventQueue():
         :rtype: bool
         """
         if self.contains_source(source):
-            self._queue.put(signal)
+            self._put(signal)
             return True
 
         return False
@@ -93,7 +99,7 @@ class EventQueue():
         :return: Queued signal.
         :rtype: Signal based on class `simpleline.event_loop.signals.AbstractSignal`.
         """
-        return self._queue.get()
+        return self._queue.get()[2]
 
     def get_top_event_if_priority(self, priority):
         """Return top enqueued signal if priority is equal to `priority`. Otherwise `None`.
@@ -104,11 +110,12 @@ class EventQueue():
         :return: Queued signal if it has requested priority. Otherwise `None`.
         :rtype: Signal based on class `simpleline.event_loop.signals.AbstractSignal` or `None`.
         """
-        event = self._queue.get()
-        if event.priority == priority:
-            return event
+        entry = self._queue.get()
+        if entry[0] == priority:
+            return entry[2]
 
-        self._queue.put(event)
+        # return the entry untouched so it keeps its place in the queue
+        self._queue.put(entry)
         return None
 
     def add_source(self, signal_source):
